@@ -39,6 +39,10 @@ func DecodeString(b []byte) (_ format.String, size int, err error) {
 	}
 	size += n + 1
 	end -= (n + 1) // null terminator
+	if end < 0 {
+		err = errors.New("decode string: invalid data")
+		return
+	}
 
 	// Data
 	data, err := decodeStringData(b[:end], dataSize)
